@@ -492,6 +492,7 @@ func runCase(t *rapid.T, tt *testing.T, p *plan) {
 	}
 	var errs []string
 	var samples []map[string]any
+	sampled := map[string]bool{}
 	sb.Run(tt, func(e *sb.Env) {
 		s := &sb.Script{
 			CloseOnApiVersions: p.Close,
@@ -581,7 +582,11 @@ func runCase(t *rapid.T, tt *testing.T, p *plan) {
 			ev.Case(fmt.Sprintf("k%d|%v|%s|lo%d|%s", rp.Key, rp.Direct, outcome, ex.Lo, ex.Why), nt)
 			switch {
 			case !ex.Feasible:
-				ev.Class("expect_error:" + ex.Why)
+				why := ex.Why
+				if strings.HasPrefix(why, "max ") {
+					why = "highest admissible version below the required minimum"
+				}
+				ev.Class("expect_error:" + why)
 			default:
 				ev.Class("expect_written_bound_by_" + ex.Binding)
 				if ex.Lo > 0 {
@@ -598,7 +603,8 @@ func runCase(t *rapid.T, tt *testing.T, p *plan) {
 			} else {
 				ev.Class("call_returned_response")
 			}
-			if len(samples) < 3 && nt {
+			if nt && len(samples) < 3 && !sampled[outcome+ex.Why[:min(len(ex.Why), 12)]] {
+				sampled[outcome+ex.Why[:min(len(ex.Why), 12)]] = true
 				vs := []int16{}
 				for _, f := range mine {
 					vs = append(vs, f.Version)
